@@ -2,6 +2,8 @@
 SPECIFICATION TSpec
 CONSTANTS
   Inst = {"v1", "v2", "v3", "v4"}
+  Slots = {"v1", "v1b", "v2", "v2b", "v3", "v4"}
+  SameApp = FALSE
   MaxHeal = 3
   MaxVal = 10
   Allowed = {"SharedCache", "LoopRefetch", "Ed25519Unsupported"}
